@@ -545,3 +545,7 @@ def check(run):
     from . import c16
     run.rules_run.append("R16d")
     run.rule(c16.r16d, run, c16.registry_class(run))
+    # round 8: shared helpers decided as tables (helper_table.py)
+    from . import helper_table as _ht
+    run.rules_run.append("R17l")
+    run.rule(_ht.r_local, run)
